@@ -60,4 +60,16 @@ theorem C07_offer_inv (b : Builder) (hb : b.Inv) (fs : List Frame) : (fs.foldl B
 theorem C07_appliesB_iff (r : BErr) (b : Builder) (f : Frame) : appliesB r b f = true ↔ Applies r b f :=
   Ross.appliesB_iff r b f
 
+/-! non-vacuity (kernel-evaluated): a two-frame packet of device 7 — the exact next frame completes it, the same frame
+from device 8 or with id 2 is rejected with a reason that applies, and before completion `build` reports missing frames -/
+example :
+    let f0 : Frame := { notError := true, start := true, multi := true, idLast := true, fid := 1, addr := 7, dataLen := 8, data := [1, 1, 2, 3, 4, 5, 6, 7] }
+    let f1 : Frame := { notError := true, start := false, multi := true, idLast := false, fid := 1, addr := 7, dataLen := 3, data := [1, 8, 9, 0, 0, 0, 0, 0] }
+    (match Builder.new f0 with
+      | .ok b => (b.build, b.addFrame { f1 with addr := 8 }, b.addFrame { f1 with fid := 2 },
+          (match b.addFrame f1 with | .ok b' => (b'.framesLeft, b'.build) | _ => (.panic, .panic)))
+      | _ => (.panic, .panic, .panic, .panic, .panic)) =
+    (.err .missingFrames, .err .deviceAddressMismatch, .err .outOfOrder, .ok 0, .ok ⟨false, 7, [1, 2, 3, 4, 5, 6, 7, 8, 9]⟩) := by
+  decide
+
 end Ross.Props
